@@ -164,6 +164,9 @@ structure Cfg where
   verDir : Bool := false     -- a versioning directory is configured
   vstatus : VStatus := .off  -- versioning status of the bucket
   bucket : String := "b"
+  -- variants of the backend (both false = the unchanged code)
+  atomicReplace : Bool := false  -- docs/C11-fix-1.diff applied: tmpfile.link replaces by rename, never removes first
+  tagsFirst : Bool := false      -- docs/C11-fix-2.diff applied: PutObject writes the tags onto the temp file
 deriving DecidableEq, Repr, Inhabited
 
 inductive Op where
@@ -275,6 +278,25 @@ def publish (fs : FS) (r : Ref) (obj : Path) : List Step :=
     | .anon id => [.link id obj]
     | .path t => [.chmod (.path t), .rename t obj])
 
+/-- (tmpfile.link with docs/C11-fix-1.diff) MkdirAll(parent); only an (empty) directory in the object's place is
+    removed; a new name is linked directly; an existing object is replaced by linking the inode next to the other
+    temp files (`tdir`) and renaming it over the object; the named temp file is simply renamed. -/
+def rmDirAt (fs : FS) (obj : Path) : List Step :=
+  match fs.get obj with
+  | some (.dir _) => [.rmdir obj]
+  | _ => []
+
+def publishR (fs : FS) (r : Ref) (obj : Path) (tdir : Path) (name : String) : List Step :=
+  let mk := mkdirAll fs obj.dropLast
+  let rm := rmDirAt fs obj
+  mk ++ rm ++ (match r with
+    | .anon id => if fs.isFile obj then [.link id (tdir ++ [name]), .rename (tdir ++ [name]) obj] else [.link id obj]
+    | .path t => [.chmod (.path t), .rename t obj])
+
+/-- the publication routine of the configured variant -/
+def publishC (cfg : Cfg) (fs : FS) (r : Ref) (obj : Path) (tdir : Path) (name : String) : List Step :=
+  if cfg.atomicReplace then publishR fs r obj tdir name else publish fs r obj
+
 /-- createObjVersion: copy the current object (data, then every attribute) into the versioning directory
     under its version id, through a temp file of its own. -/
 def archive (cfg : Cfg) (rq : Req) (fs : FS) (key : Path) : List Step :=
@@ -291,7 +313,7 @@ def archive (cfg : Cfg) (rq : Req) (fs : FS) (key : Path) : List Step :=
     let s3 := mkdirAll fs2 vdir
     let fs3 := run s3 fs2
     let s4 := storeAttrs cfg fs3 o.1 vpath attrs
-    s12 ++ s3 ++ s4 ++ publish (run s4 fs3) o.1 vpath
+    s12 ++ s3 ++ s4 ++ publishC cfg (run s4 fs3) o.1 vpath (verBucket cfg ++ [".sgwtmp"]) (rq.tmp ++ "v")
   | _ => []
 
 /-- deleteNullVersionIdObject -/
@@ -306,6 +328,7 @@ structure PutSpec where
   falloc : Bool
   attrs : List (String × Val)   -- user metadata, checksums, etag, content-type: in the order of the code
   postAttrs : List (String × Val) -- written by NAME after publication (tags; legal hold, retention alike)
+  tailAttrs : List (String × Val) := [] -- written onto the temp file after the version id (tags with fix-2)
 
 /-- PutObject for a file key, up to (not including) the publication: temp file, body, archive copy of the
     current version, parent directories, attributes. -/
@@ -325,7 +348,7 @@ def prePut (cfg : Cfg) (rq : Req) (fs : FS) (key : Path) (sp : PutSpec) : List S
   let s5 := deleteAttrs cfg fs4 obj
   let fs5 := run s5 fs4
   let vidAttr : List (String × Val) := if cfg.verDir && cfg.vstatus == .enabled then [("version-id", rq.newVid)] else []
-  let s6 := storeAttrs cfg fs5 o.1 obj (sp.attrs ++ vidAttr)
+  let s6 := storeAttrs cfg fs5 o.1 obj (sp.attrs ++ vidAttr ++ sp.tailAttrs)
   s1 ++ s2 ++ s3 ++ s4 ++ s5 ++ s6
 
 /-- PutObject for a file key: preparation, publication (tmpfile.link), then the attributes written by name. -/
@@ -334,17 +357,19 @@ def planPutSpec (cfg : Cfg) (rq : Req) (fs : FS) (key : Path) (sp : PutSpec) : L
   if !fs.isDir (bucketPath cfg) || fs.isDir obj then [] else
   let pre := prePut cfg rq fs key sp
   let fs6 := run pre fs
-  let s7 := publish fs6 (openTmp cfg fs 0 (tmpDir cfg) sp.falloc rq.tmp).1 obj
+  let s7 := publishC cfg fs6 (openTmp cfg fs 0 (tmpDir cfg) sp.falloc rq.tmp).1 obj (tmpDir cfg) rq.tmp
   let s8 := storeAttrs cfg (run s7 fs6) (.path obj) obj sp.postAttrs
   pre ++ s7 ++ s8
 
-def putSpecOf (rq : Req) : PutSpec :=
+def putSpecOf (cfg : Cfg) (rq : Req) : PutSpec :=
+  let tg : List (String × Val) := if rq.tags then [("X-Amz-Tagging", "new")] else []
   { data := rq.data, falloc := rq.falloc,
     attrs := rq.metaKeys.map (fun k => ("X-Amz-Meta." ++ k, "new")) ++ [("checksums", "new"), ("etag", "new")] ++
              (if rq.ctype then [("content-type", "new")] else []),
-    postAttrs := if rq.tags then [("X-Amz-Tagging", "new")] else [] }
+    postAttrs := if cfg.tagsFirst then [] else tg,
+    tailAttrs := if cfg.tagsFirst then tg else [] }
 
-def planPut (cfg : Cfg) (rq : Req) (fs : FS) : List Step := planPutSpec cfg rq fs rq.key (putSpecOf rq)
+def planPut (cfg : Cfg) (rq : Req) (fs : FS) : List Step := planPutSpec cfg rq fs rq.key (putSpecOf cfg rq)
 
 def isMetaAttr (a : String) : Bool := "X-Amz-Meta.".isPrefixOf a
 
@@ -360,7 +385,7 @@ def planCopy (cfg : Cfg) (rq : Req) (fs : FS) : List Step :=
     let tg : List (String × Val) := match readAttr cfg fs src "X-Amz-Tagging" with
       | some v => [("X-Amz-Tagging", v)]
       | none => []
-    let sp : PutSpec := ⟨data, data != "", metas ++ [("checksums", "new"), ("etag", "new")] ++ ct, tg⟩
+    let sp : PutSpec := ⟨data, data != "", metas ++ [("checksums", "new"), ("etag", "new")] ++ ct, tg, []⟩
     planPutSpec cfg rq fs rq.key sp
   | _ => []
 
@@ -416,7 +441,7 @@ def planUploadPart (cfg : Cfg) (rq : Req) (fs : FS) : List Step :=
   let mp := mpDir cfg rq.key rq.upload
   if !fs.isDir mp then [] else
   let pre := preUploadPart cfg rq fs
-  pre ++ publish (run pre fs) (openTmp cfg fs 0 od rq.falloc rq.tmp).1 (mp ++ [rq.partNo])
+  pre ++ publishC cfg (run pre fs) (openTmp cfg fs 0 od rq.falloc rq.tmp).1 (mp ++ [rq.partNo]) (tmpDir cfg) rq.tmp
 
 def joinData (ds : List Val) : Val := "+".intercalate ds
 
@@ -460,7 +485,7 @@ def planComplete (cfg : Cfg) (rq : Req) (fs : FS) : List Step :=
   if (partDatas cfg rq fs).length != rq.parts.length then [] else
   let pre := preComplete cfg rq fs
   let fs5 := run pre fs
-  let s6 := publish fs5 (openTmp cfg fs 0 (tmpDir cfg) false rq.tmp).1 obj
+  let s6 := publishC cfg fs5 (openTmp cfg fs 0 (tmpDir cfg) false rq.tmp).1 obj (tmpDir cfg) rq.tmp
   pre ++ s6 ++ cleanupUpload cfg rq (run s6 fs5)
 
 def plan (cfg : Cfg) (rq : Req) (fs : FS) : List Step :=
